@@ -638,6 +638,16 @@ class Interp:
     def assign(self, target, v, st, stmt):
         if isinstance(target, ast.Name):
             self.assign_name(target.id, v, st)
+        elif isinstance(target, (ast.Tuple, ast.List)) and sum(isinstance(t, ast.Starred) for t in target.elts) == 1 and v.items is not None and len(v.items) >= len(target.elts) - 1:
+            # a, *rest = seq  /  *init, last = seq : the starred name takes the middle as a list
+            k = next(i for i, t in enumerate(target.elts) if isinstance(t, ast.Starred))
+            after = len(target.elts) - k - 1
+            seq = list(v.items)
+            for t, x in zip(target.elts[:k], seq[:k]):
+                self.assign(t, x, st, stmt)
+            self.assign(target.elts[k].value, self.mk_list(seq[k: len(seq) - after]), st, stmt)
+            for t, x in zip(target.elts[k + 1:], seq[len(seq) - after:] if after else []):
+                self.assign(t, x, st, stmt)
         elif isinstance(target, (ast.Tuple, ast.List)):
             items = self.unpack(v, len(target.elts), st, stmt)
             for t, x in zip(target.elts, items):
